@@ -2,7 +2,7 @@ PROPERTY = "C03"
 LEVEL = "proof"
 LEAN_MODULES = ["CifModel.Props.C03", "CifModel.Props.C03Extra", "CifModel.Lemmas.ParserTop", "CifModel.Lemmas.ParserQuiet", "CifModel.Lemmas.ParserConsistent", "CifModel.Lemmas.ParserStore", "CifModel.Lemmas.ParserDetProd", "CifModel.Lemmas.ParserDetLex", "CifModel.Lemmas.ParserDet", "CifModel.Props.ReviewC03"]
 REQUIRED = ["CifModel.C03_total", "CifModel.C03_clamp", "CifModel.C03_report_site", "CifModel.C03_prefix_determinism", "CifModel.C03_result",
-            "CifModel.C03_reported_partial", "CifModel.C03_reported", "CifModel.Model.Parser.parseInternal_die", "CifModel.C03_consistent_after", "CifModel.C03_consistent_after_fresh",
+            "CifModel.C03_reported_partial", "CifModel.C03_reported", "CifModel.C03_reported_full", "CifModel.Model.Parser.parseInternal_die", "CifModel.C03_consistent_after", "CifModel.C03_consistent_after_fresh",
             "CifModel.C03_consistent_iff", "CifModel.C03_consistent_container", "CifModel.Model.Parser.parse_ok", "CifModel.Model.Parser.updIn_ok",
             "CifModel.C03_die_is_first", "CifModel.C03_accept_all", "CifModel.C03_codes_nonzero",
             "CifModel.C03_fuel_suffices", "CifModel.C03_nofuel_only_from_callback", "CifModel.C03_callback_lines",
@@ -26,18 +26,18 @@ ASSUMPTIONS = [
     "memory exhaustion and I/O failure are not modelled (C17); byte decoding (ICU) is not modelled: the character source delivers "
     "UTF-16 code units",
     "extra whitespace / end-of-line characters are modelled by the class-preserving substitution c -> TAB / LF (exact for every "
-    "observable except the identity of such a unit inside a delimited string)",
+    "observable except the identity of such a unit inside a delimited string; the one place where that identity decides a report — a "
+    "quoted TABLE KEY holding such a unit is refused by cif_value_set_item_by_key and reported as CIF_INVALID_INDEX — is left to the "
+    "implementation-level oracle: the comparison with the model is skipped for requests where an extra character occurs and the "
+    "implementation reports 73; tools/gen/parsedoc.py extra_in_key)",
     "names are normalised by a parameter `norm`; the driver instantiates ASCII case folding (exact for the generated alphabets)",
 ]
 PARTIAL = [
-    "C03_reported is proved for every failure value except two: C03_reported says that a parse (any options, any policy, any "
-    "input, any initial target) that fails with a value other than CIF_INVALID_INDEX (73) and the model's out-of-fuel marker (1001) "
-    "has reported at least one error — the seven 'should not happen' exits (CIF_INTERNAL_ERROR x4, CIF_INVALID_ITEMNAME x2, "
-    "CIF_DUP_ITEMNAME) are proved unreachable before the first report (Lemmas/ParserQuiet).  Missing for C03_reported_full: "
-    "(a) CIF_INVALID_INDEX from cif_value_set_item_by_key on a table key with a disallowed character — needs the scanner fact that "
-    "every disallowed unit of a quoted key was reported (a lemma about Model/Lexer.scanDelim / keyPeek, not proved); (b) the "
-    "out-of-fuel marker — the fuel-suffices lemma.  Both are observed by the oracle of family `parse` on every request "
-    "(never fails without a report; 1001 never seen).",
+    "C03_reported_full is PROVED without exception: every option record, every callback policy, every initial target, every input — a "
+    "parse that fails has reported at least one error.  C03_reported (Lemmas/ParserQuiet: the seven 'should not happen' exits — "
+    "CIF_INTERNAL_ERROR x4, CIF_INVALID_ITEMNAME x2, CIF_DUP_ITEMNAME — are unreachable before the first report; CIF_INVALID_INDEX is "
+    "itself reported since parser.c 8375485, no `fail` site with that code is left) + C03_fuel_suffices_accept_all (a parse with an "
+    "empty log is the accept-all parse, which never ends with the out-of-fuel marker).",
     "C03_total: totality is by construction (Lean's termination check) and the fuel is proved sufficient: C03_fuel_suffices (Props/C03Extra.lean, "
     "potential argument over the lexer and the productions) — the out-of-fuel marker 1001 is never the result unless the callback itself answers 1001 "
     "(C03_nofuel_only_from_callback)",
